@@ -208,16 +208,26 @@ def c031_version(ctx):
         ctx.check(R, f, "concat-nonempty", g is not None, "a level is skipped only when it has no overlapping file", "a level's cursors can be dropped", pt=pt)
     for pt in mc:
         ctx.check(R, f, "merge-all", bool(K.user_locals(f, P.term_at(f, pt)["args"][0]) & {l for p_ in l0_push + concat for l in K.user_locals(f, P.term_at(f, p_)["args"][0])}), "MergingCursor takes the collected cursors", "MergingCursor is not built over the collected cursors", pt=pt)
-    # the lazy closure opens the file of the iterated metadata
+    # the lazy closure opens the file of the iterated metadata: the function (found by what it does, not by its name) that the closures
+    # handed to LazyCursor::new call and that builds the path with SST_FILE takes the file's setsum as a parameter
+    openers = {}
     for g in ctx.prog.closures_of(f):
-        lc = P.call_points(g, r"range_scan::lazy_cursor$")
-        if lc:
-            ctx.ok(R, g, "lazy closure opens lazy_cursor(fm, sc, root, setsum)", lc)
-    lz = ctx.fn(R, "lsmtk::tree::Version::range_scan::lazy_cursor")
-    if lz:
+        for _b, t in g.calls():
+            for k in ctx.prog.targets(t):
+                h = ctx.prog.fns.get(k)
+                if h is not None and h.crate == "lsmtk" and P.call_points(h, r"^lsmtk::SST_FILE$"):
+                    openers[h.key] = h
+        if P.call_points(g, r"^lsmtk::SST_FILE$"):
+            openers[g.key] = g
+    ctx.check(R, f, "lazy-opener", len(openers) >= 1, "the lazy closures open their file through %s" % sorted(h.skey for h in openers.values()),
+              "no closure of Version::range_scan opens an SST file lazily any more")
+    for lz in openers.values():
         for pt in P.call_points(lz, r"^lsmtk::SST_FILE$"):
-            ctx.check(R, lz, "opens-own-file", any(s["k"] == "param" and s["i"] == 4 for s in P.origins(lz, P.term_at(lz, pt)["args"][1])),
-                      "lazy_cursor opens SST_FILE(root, setsum) of its argument", "lazy_cursor opens a different file", pt=pt)
+            srcs = P.origins(lz, P.term_at(lz, pt)["args"][1])
+            own = any(s_["k"] == "param" and "setsum::Setsum" in lz.locals[s_["i"]] for s_ in srcs) or \
+                any(s_["k"] == "upvar" or (s_["k"] == "field" and "closure" in s_.get("owner", "")) for s_ in srcs)
+            ctx.check(R, lz, "opens-own-file", own, "the opener builds SST_FILE(root, setsum) from the setsum it is given",
+                      "the lazy opener builds the path of a different file", pt=pt)
 
 
 def c031_leaves(ctx):
